@@ -16,8 +16,8 @@ def ws_documents(chk, quick):
     out = []
     common = {'MEnvNames': [], 'VerbNames': [], 'Leaves': [], 'Labels': [''], 'ComPool': [], 'ListNames': [], 'MathKinds': []}
     p = dict(common)
-    p.update({'Budget': 5 if quick else 7, 'Seps': ['', '\n', ' '], 'TextPool': ['\n\n', 'x'], 'MathTextPool': ['x'], 'EnvNames': [], 'CmdNames': ['a'],
-              'MaxSib': 2, 'MaxArgs': 4 if quick else 6, 'MaxDepth': 2})
+    p.update({'Budget': 5 if quick else 6, 'Seps': ['', '\n', ' '], 'TextPool': ['\n\n', 'x'], 'MathTextPool': ['x'], 'EnvNames': [], 'CmdNames': ['a'],
+              'MaxSib': 2, 'MaxArgs': 4 if quick else 5, 'MaxDepth': 2})
     recs, _ = D.generate(chk, 'wsruns', p, ['C02_Structure', 'C09_Conserves'])
     out += [from_atoms(r['i']) for r in recs]
     p = dict(common)
@@ -26,7 +26,7 @@ def ws_documents(chk, quick):
     recs, _ = D.generate(chk, 'twinargs', p, ['C02_Structure'])
     out += [from_atoms(r['i']) for r in recs]
     p = dict(common)
-    p.update({'Budget': 3 if quick else 5, 'Seps': ['', ' ', '\n', ' \n '], 'TextPool': ['x', ' '], 'MathTextPool': ['x'], 'EnvNames': ['e'], 'CmdNames': ['a', 'bb'],
+    p.update({'Budget': 3 if quick else 4, 'Seps': ['', ' ', '\n', ' \n '], 'TextPool': ['x', ' '], 'MathTextPool': ['x'], 'EnvNames': ['e'], 'CmdNames': ['a', 'bb'],
               'MathKinds': ['$'], 'ListNames': ['itemize'], 'MaxSib': 2, 'MaxArgs': 2, 'MaxDepth': 3})
     recs, _ = D.generate(chk, 'wsdocs', p, ['C02_Structure', 'C09_Conserves'])
     out += [from_atoms(r['i']) for r in recs]
